@@ -258,6 +258,41 @@ def r6(ctx):
     ctx.floor(rule, n, "C20.R6.paired_constants")
 
 
+
+def r7(ctx):
+    from .c01 import payload_used
+    rule = "C20.R7"
+    ctx.rule(rule, "all-or-error content reads: the DER / BER primitive readers (impl BasicRead for T, rw::der) fill their buffers with "
+                   "Read::read_exact; a call of Read::read whose byte count is not used accepts a short read (BufReader, chained or "
+                   "network readers) and leaves content octets unconsumed")
+    P = ctx.program()
+    n = 0
+    exact = 0
+    for b in P.lib_bodies("asn1rs"):
+        if "::promoted[" in b.path or "::tests::" in b.path or b.derived:
+            continue
+        if not ("protocol::basic" in b.path or "rw::der" in b.path):
+            continue
+        for cs in b.calls():
+            tr = (cs.trait or "")
+            if not tr.endswith("io::Read"):
+                continue
+            if cs.name == "read_exact":
+                exact += 1
+                continue
+            if cs.name not in ("read", "read_vectored", "read_buf"):
+                continue
+            n += 1
+            used = payload_used(b, cs)
+            detail = {"function": b.path, "call": cs.name, "byte_count_used": used}
+            key = "%s#%s" % (X.short(b.root or b.path), cs.name)
+            if not used:
+                ctx.fail(rule, key, "%s calls Read::%s and ignores how many bytes were read: a reader that returns short reads yields a "
+                                    "wrong value and leaves content octets in the stream" % (X.short(b.root or b.path), cs.name), cs.loc(), detail)
+            else:
+                ctx.ok(rule, key, detail)
+    ctx.floor(rule, exact, "C20.R7.read_exact_sites")
+
 def run(ctx):
     with open(os.path.join(VERIF, "tables", "x690.json")) as fh:
         table = json.load(fh)
@@ -265,3 +300,4 @@ def run(ctx):
     r2_r3_r5(ctx, table)
     r4(ctx)
     r6(ctx)
+    r7(ctx)
